@@ -150,9 +150,10 @@ def build_node(node, objs, notes=None):
       return fdl.TaggedValue(tg)
     return fdl.TaggedValue(tg, default=deref(node['value'], objs))
   if k == 'B':
-    if node['bt'] == 'DictConfig':
-      from fiddle.experimental import dict_config
-      cfg = dict_config.DictConfig(**{n: deref(r, objs) for n, r in node.get('kw', {}).items()})
+    if node['bt'] in ('DictConfig', 'NamespaceConfig'):
+      from fiddle.experimental import dict_config, namespace_config
+      cls = dict_config.DictConfig if node['bt'] == 'DictConfig' else namespace_config.NamespaceConfig
+      cfg = cls(**{n: deref(r, objs) for n, r in node.get('kw', {}).items()})
       for e in node.get('edits', []):
         apply_edit(cfg, e, objs)
       for key, tname in node.get('tags', []):
